@@ -134,6 +134,9 @@ pub fn vote_step_x(s: &mut Src, sh: &Shape, pre: bool, mcommit_c: Option<u64>, m
     }
     assert!(r.msgs.len() <= 1);
     assert_li(&r);
+    if role0 == StateRole::Leader && r.state != StateRole::Leader {
+        assert_progress_reset(&r, sh);
+    }
     let cand = role0 == StateRole::Candidate || role0 == StateRole::PreCandidate;
     // which events the (possibly concrete) scenario admits
     let rel_hi = match (mterm_c, sh.fixed_term) {
